@@ -1,6 +1,38 @@
--- shard 22 of the closeness / tick-gap sweep (C06 (c), (e)): |tick| in [720896, 753664)
+-- shard 22 of the closeness / tick-gap sweep (C06 (c), (e)): |tick| in [720896, 753664), 16 blocks of 2^11
 import Proofs.Lemmas.ClosePred
 namespace Demeter.TickClose
 set_option maxRecDepth 100000 in
-theorem close_shard_22 : chkN closeSweepPred 720896 shardBits = true := by decide +kernel
+theorem close_blk_720896 : chkN closeSweepPred 720896 11 = true := by decide +kernel
+set_option maxRecDepth 100000 in
+theorem close_blk_722944 : chkN closeSweepPred 722944 11 = true := by decide +kernel
+set_option maxRecDepth 100000 in
+theorem close_blk_724992 : chkN closeSweepPred 724992 11 = true := by decide +kernel
+set_option maxRecDepth 100000 in
+theorem close_blk_727040 : chkN closeSweepPred 727040 11 = true := by decide +kernel
+set_option maxRecDepth 100000 in
+theorem close_blk_729088 : chkN closeSweepPred 729088 11 = true := by decide +kernel
+set_option maxRecDepth 100000 in
+theorem close_blk_731136 : chkN closeSweepPred 731136 11 = true := by decide +kernel
+set_option maxRecDepth 100000 in
+theorem close_blk_733184 : chkN closeSweepPred 733184 11 = true := by decide +kernel
+set_option maxRecDepth 100000 in
+theorem close_blk_735232 : chkN closeSweepPred 735232 11 = true := by decide +kernel
+set_option maxRecDepth 100000 in
+theorem close_blk_737280 : chkN closeSweepPred 737280 11 = true := by decide +kernel
+set_option maxRecDepth 100000 in
+theorem close_blk_739328 : chkN closeSweepPred 739328 11 = true := by decide +kernel
+set_option maxRecDepth 100000 in
+theorem close_blk_741376 : chkN closeSweepPred 741376 11 = true := by decide +kernel
+set_option maxRecDepth 100000 in
+theorem close_blk_743424 : chkN closeSweepPred 743424 11 = true := by decide +kernel
+set_option maxRecDepth 100000 in
+theorem close_blk_745472 : chkN closeSweepPred 745472 11 = true := by decide +kernel
+set_option maxRecDepth 100000 in
+theorem close_blk_747520 : chkN closeSweepPred 747520 11 = true := by decide +kernel
+set_option maxRecDepth 100000 in
+theorem close_blk_749568 : chkN closeSweepPred 749568 11 = true := by decide +kernel
+set_option maxRecDepth 100000 in
+theorem close_blk_751616 : chkN closeSweepPred 751616 11 = true := by decide +kernel
+theorem close_shard_22 : chkN closeSweepPred 720896 shardBits = true :=
+  (chkN_join _ 720896 14 (chkN_join _ 720896 13 (chkN_join _ 720896 12 (chkN_join _ 720896 11 close_blk_720896 close_blk_722944) (chkN_join _ 724992 11 close_blk_724992 close_blk_727040)) (chkN_join _ 729088 12 (chkN_join _ 729088 11 close_blk_729088 close_blk_731136) (chkN_join _ 733184 11 close_blk_733184 close_blk_735232))) (chkN_join _ 737280 13 (chkN_join _ 737280 12 (chkN_join _ 737280 11 close_blk_737280 close_blk_739328) (chkN_join _ 741376 11 close_blk_741376 close_blk_743424)) (chkN_join _ 745472 12 (chkN_join _ 745472 11 close_blk_745472 close_blk_747520) (chkN_join _ 749568 11 close_blk_749568 close_blk_751616))))
 end Demeter.TickClose
